@@ -873,3 +873,67 @@ func untrimmedUse(v ssa.Value, depth int) ssa.Instruction {
 	}
 	return nil
 }
+
+// c18EmittedDeclsMarked: what the resolver template writes itself must not also be carried over as "remaining source".  The
+// single-file layout emits the root type (`type Resolver struct{}`, ResolverBuild.HasRoot); the generator therefore marks
+// that struct as copied before it asks the rewriter for the remaining source — otherwise the second run over untouched output
+// finds the root type unclaimed and moves it into the "code below was going to be deleted" block: generation is not idempotent
+// (and the user is warned about code nobody wrote).
+func c18EmittedDeclsMarked(c *Ctx) {
+	c.R.Rule("emitted-root-marked-copied", "plugin/resolvergen: a function that renders with ResolverBuild.HasRoot = true calls a Rewriter.Mark…Copied method with the configured resolver type name before Rewriter.RemainingSource", 1)
+	n := 0
+	for _, fn := range c.W.FuncsIn(func(p string) bool { return p == pkgResolvergen }) {
+		var hasRoot ssa.Instruction
+		for _, b := range fn.Blocks {
+			for _, in := range b.Instrs {
+				st, ok := in.(*ssa.Store)
+				if !ok {
+					continue
+				}
+				fa, ok := st.Addr.(*ssa.FieldAddr)
+				if !ok || fieldNameOf(fa) != "HasRoot" {
+					continue
+				}
+				if k, isC := st.Val.(*ssa.Const); isC && k.Value != nil && k.Value.String() == "true" {
+					hasRoot = in
+				}
+			}
+		}
+		if hasRoot == nil {
+			continue
+		}
+		n++
+		var marks, remaining []ssa.Instruction
+		for _, call := range an.CallsIn(fn, func(_ ssa.CallInstruction, ci an.CalleeInfo) bool {
+			return ci.Static != nil && (strings.HasPrefix(ci.Static.Name(), "Mark") && strings.HasSuffix(ci.Static.Name(), "Copied") || ci.Static.Name() == "RemainingSource")
+		}) {
+			if call.Common().StaticCallee().Name() == "RemainingSource" {
+				remaining = append(remaining, call)
+				continue
+			}
+			args := call.Common().Args
+			if fa, ok := loadAddr(an.Strip(args[len(args)-1])).(*ssa.FieldAddr); ok && fieldNameOf(fa) == "Type" {
+				if nt := namedStruct(fa.X.Type()); nt != nil && strings.Contains(nt.Obj().Name(), "Resolver") {
+					marks = append(marks, call)
+				}
+			}
+		}
+		ok := len(marks) > 0
+		for _, r := range remaining {
+			before := false
+			for _, m := range marks {
+				if an.CanReach(m, r) && !an.CanReach(r, m) {
+					before = true
+				}
+			}
+			if !before {
+				ok = false
+			}
+		}
+		c.R.Check(ok, shortFn(topFn(fn))+"/root-type", c.ipos(hasRoot), "the root type is claimed before the remaining source is computed",
+			"the template emits the root resolver type (HasRoot) but the generator never marks that struct as copied: on the next run over untouched output `type "+"Resolver struct{}` is treated as left-over user code and moved into the WARNING block — running generation twice changes the file")
+	}
+	if n == 0 {
+		c.R.Note("emitted-root-marked-copied", "-", "no function of resolvergen renders with HasRoot = true; nothing to judge")
+	}
+}
